@@ -1,4 +1,4 @@
-import Libp2pModel.Proofs.C07Inv
+import Libp2pModel.Proofs.C07All
 import Libp2pModel.Common.Machine
 /-!
 # C07 — property theorems
@@ -63,7 +63,7 @@ theorem fifo_queue (n : Nat) (ops : List Op) :
 /-- **An event is dropped only when its target(s) are closing or absent.** Every drop record —
 `notify_one` / `notify_any` giving up, or a queue discarded by the task — lists no target that was
 established, not closing and not closed at that moment (for `Any`: among the ids the pending event
-still carried; see `prune_only_dead` for the ids removed earlier). -/
+still carried; `any_lost_only_if_all_captured_dead` is the same over ALL captured ids). -/
 theorem loss_only_if_closing (n : Nat) (ops : List Op) :
     ∀ d ∈ (reach n ops).dropped, d.live = [] :=
   (inv_reach n ops).drops
@@ -102,14 +102,101 @@ theorem prune_only_dead (s s' : State) (p : Pending) (ids : List Nat) (hc : p.cu
           rw [hready] at this; cases this
         · exact hnot (List.mem_filter.2 ⟨hid, by simp [h1]⟩)
 
-/-- The full C07 statement also needs *global* uniqueness: an event number never appears in the
-`got` lists of two different handlers (nor both in a `got` list and in `dropped`).  This
-conservation law is stated here and checked on every correspondence run (the Spec's
-`deliver_twice` / `drop_twice` clauses) but is not proved. -/
+/-- **Global uniqueness** (the statement that was only monitored before): over all handlers that ever
+existed and the drop records, no event number occurs twice — an event is received by at most one
+handler, at most once, and never both received and dropped. -/
 def full_statement : Prop :=
   ∀ (n : Nat) (ops : List Op),
     let s := reach n ops
     ((s.handlers.flatMap (fun k => k.got.map (·.n))) ++ s.dropped.map (·.e.n)).Nodup
+
+theorem inv2_reach (n : Nat) (ops : List Op) : Inv2 (reach n ops) :=
+  Machine.invariant_of_step step Inv2 (fun _ o h => h.step o) ops _ (Inv2.init n)
+
+/-- **Conservation.** After any history every event number issued so far (`< nextEv`) is in exactly
+one place — not yet sent (behaviour queue / `pending_handler_event`), received by or queued for
+exactly one handler, or recorded as dropped — and no other number is anywhere. -/
+theorem conservation (n : Nat) (ops : List Op) (k : Nat) :
+    (reach n ops).cnt k = if k < (reach n ops).nextEv then 1 else 0 :=
+  (inv2_reach n ops).uniq k
+
+theorem count_got_le_toks (x : Nat) (cs : List Conn) :
+    (cs.flatMap (fun k => k.got.map (·.n))).count x ≤ (toks cs).count x := by
+  induction cs with
+  | nil => simp [toks]
+  | cons a r ih =>
+    simp only [toks, List.flatMap_cons, List.count_append, Conn.tok, Conn.seq, List.map_append] at ih ⊢
+    omega
+
+theorem full_statement_proved : full_statement := by
+  intro n ops
+  simp only
+  rw [List.nodup_iff_count]
+  intro x
+  have h := conservation n ops x
+  have h1 := count_got_le_toks x (reach n ops).conns
+  have h2 := count_got_le_toks x (reach n ops).gone
+  simp only [State.cnt] at h
+  simp only [State.handlers, List.flatMap_append, List.count_append]
+  split at h <;> omega
+
+/-- Connection ids are never reused: "the handler of connection `c`" is unambiguous. -/
+theorem handler_ids_nodup (n : Nat) (ops : List Op) :
+    (cids (reach n ops).conns ++ cids (reach n ops).gone).Nodup := by
+  rw [List.nodup_iff_count]
+  intro id
+  have := (inv2_reach n ops).ids.uniq id
+  simp only [State.allIds, List.count_append] at this ⊢
+  omega
+
+/-- **One(c): only to c, at most once, by one handler** — `one_targeted_partial` plus global
+uniqueness plus unambiguous connection ids. -/
+theorem one_targeted (n : Nat) (ops : List Op) :
+    (∀ k ∈ (reach n ops).handlers, ∀ e ∈ k.got, ∀ c, e.tgt = .one c → k.id = c) ∧
+    ((reach n ops).handlers.flatMap (fun k => k.got.map (·.n))).Nodup ∧
+    (cids (reach n ops).conns ++ cids (reach n ops).gone).Nodup :=
+  ⟨one_targeted_partial n ops, (List.nodup_append.1 (full_statement_proved n ops)).1, handler_ids_nodup n ops⟩
+
+/-- what a drop record's `liveAll` is: the captured targets (for `Any`: ALL ids captured at emission,
+also those `notify_any` pruned from the pending list earlier) that are established, not closing
+and not closed in the state in which the event is dropped -/
+theorem dropNote_liveAll (s : State) (e : Note) (cur : Target) :
+    (s.dropNote e cur).dropped = s.dropped ++ [⟨e, s.liveIds cur, s.liveIds e.tgt⟩] := rfl
+
+/-- **Any: exactly one unless all captured connections are closing/gone** (strong form). An event is
+dropped only in a state where NONE of the connections captured at emission — including the ids pruned
+earlier — is established, not closing and not closed.  (With `conservation`: an `Any` event that has
+left the behaviour and is not dropped is queued for or received by exactly one handler, a member of
+the captured list by `any_member`, and `queued_is_delivered` hands it over when the task runs.) -/
+theorem any_lost_only_if_all_captured_dead (n : Nat) (ops : List Op) :
+    ∀ d ∈ (reach n ops).dropped, d.liveAll = [] :=
+  (inv2_reach n ops).strong.dropsAll
+
+/-- while an `Any` event is pending, every captured id that was pruned from its candidate list is
+(still) absent, closing or closed — closing is permanent and ids are never reused -/
+theorem pruned_stay_dead (n : Nat) (ops : List Op) (p : Pending) (ids0 cur : List Nat)
+    (hp : (reach n ops).pending = some p) (ht : p.e.tgt = .any ids0) (hc : p.cur = .any cur) :
+    (∀ id ∈ cur, id ∈ ids0) ∧ ∀ id ∈ ids0, id ∉ cur → (reach n ops).isLiveId id = false := by
+  refine ⟨?_, (inv2_reach n ops).strong.pruned p ids0 cur hp ht hc⟩
+  have := (inv_reach n ops).pend p hp
+  simp only [pendOK, hc] at this
+  obtain ⟨ids1, h1, h2⟩ := this
+  rw [ht] at h1; cases h1; exact h2
+
+/-- non-vacuity of the strong clause: connections 0, 1 (peer 1) are full, an `Any` event is pending
+with candidates [0, 1]; connection 2 to the same peer is established afterwards; connection 0 is
+closed → pruned (pending list [1], captured list still [0, 1]); connection 1 is closed → the event
+is dropped with no live captured target, and connection 2 (not captured) never gets it. -/
+example :
+    let ops : List Op := [.connect 1, .connect 1, .connect 1, .poll none, .poll (some 0), .poll (some 1),
+      .emit [.one 0, .one 1, .any 1 none], .poll (some 2), .close 0, .poll none]
+    let s1 := Machine.exec step (State.init 1) ops
+    let s2 := Machine.exec step (State.init 1) (ops ++ [.close 1, .poll (some 0)])
+    s1.pending.map (fun p => (p.e.n, p.e.tgt, p.cur)) = some (2, .any [0, 1], .any [1]) ∧
+    s2.dropped.map (fun d => (d.e.n, d.live, d.liveAll)) = [(2, [], [])] ∧
+    s2.handlers.map (fun k => (k.id, k.got.map (·.n))) = [(1, [1]), (2, []), (0, [0])] ∧
+    s2.isLiveId 2 = true ∧ s2.bad = false := by
+  decide +kernel
 
 /-! ### the code as found (`fixed = false`): an `Any` event is lost although a healthy connection exists -/
 
@@ -153,6 +240,13 @@ example :
 end C07
 
 #print axioms C07.inv_reach
+#print axioms C07.inv2_reach
+#print axioms C07.conservation
+#print axioms C07.full_statement_proved
+#print axioms C07.handler_ids_nodup
+#print axioms C07.one_targeted
+#print axioms C07.any_lost_only_if_all_captured_dead
+#print axioms C07.pruned_stay_dead
 #print axioms C07.one_targeted_partial
 #print axioms C07.any_member
 #print axioms C07.any_captured_at_emission
